@@ -46,8 +46,19 @@ def pool(rng, n):
 
 
 def has_na_field(v):
+    """a pd.NA anywhere among the compared fields, also inside list items / nested structures
+    (dataclass equality compares the field tuples element by element, so a nested NA is compared too)"""
     import pandas as pd
-    return any(x is pd.NA for x in dataclasses.astuple(v))
+
+    def deep(x):
+        if x is pd.NA:
+            return True
+        if isinstance(x, (list, tuple)):
+            return any(deep(y) for y in x)
+        if isinstance(x, dict):
+            return any(deep(y) for y in x.values())
+        return False
+    return deep(dataclasses.astuple(v))
 
 
 def order_cases(run, descs):
